@@ -187,7 +187,12 @@ def base_items(i):
     G = {"kind": "struct", "name": f"D{i}G", "shape": "named", "attrs": {}, "generics": [{"name": "T"}],
          "fields": [{"name": "t", "ty": PARAM("T"), "attrs": {}}, {"name": "n", "ty": VEC(PARAM("T")), "attrs": {}}]}
     OV = {"kind": "struct", "name": f"D{i}OV", "shape": "named", "attrs": {"type": "string"}, "generics": [], "serde": True, "fields": [{"name": "z", "ty": P("u8"), "attrs": {}}]}
-    return [L, EX, S, EI, EA, EU, T, NT, UN, G, OV]
+    # two flattened enums in a struct without own fields, flattened as the only content of another struct: `(A | B) & (C | D)` passes
+    # through the scan that strips one enclosing pair of parentheses (comments inside must be skipped whatever they end with)
+    MID = {"kind": "struct", "name": f"D{i}MID", "shape": "named", "attrs": {}, "generics": [],
+           "fields": [{"name": "a", "ty": N(EI["name"]), "attrs": {"flatten": True}}, {"name": "b", "ty": N(EA["name"]), "attrs": {"flatten": True}}]}
+    TOP = {"kind": "struct", "name": f"D{i}TOP", "shape": "named", "attrs": {}, "generics": [], "fields": [{"name": "m", "ty": N(MID["name"]), "attrs": {"flatten": True}}]}
+    return [L, EX, S, EI, EA, EU, T, NT, UN, G, OV, MID, TOP]
 
 
 def positions(items):
@@ -240,6 +245,12 @@ def stream_items(ctx):
             d = gen_docs(rng, 1)[0]
             put(items, path, d)
             placed.append((kind, path, d))
+        if v in (1, 3):
+            # a block comment that ends in `**/` (one doc attribute over several lines whose text ends with `*`), and one starting `/**/`-like
+            d1, d2 = [" first line\n the last line ends with a star *"], ["/ a slash first\n then more"]
+            placed = [x for x in placed if x[1] not in ((3, "v", 0, 0), (4, "v", 1, 0))]
+            put(items, (3, "v", 0, 0), d1); placed.append(("variant_named_field", (3, "v", 0, 0), d1))
+            put(items, (4, "v", 1, 0), d2); placed.append(("variant_named_field", (4, "v", 1, 0), d2))
         progs.append({"items": items, "probes": probes_of(items)})
         meta.append(placed)
     c = corpus.get(ctx)
